@@ -25,7 +25,7 @@ extern std::atomic<long> g_time_value;
 
 std::string Action::str() const {
     static const char* n[] = {"run", "publish", "subscribe", "unsubscribe", "cancel", "disconnect", "destroy", "signal",
-                              "broker_publish", "net_kill", "spurious_ack", "hostile_bytes", "set_silent", "custom", "reauth",
+                              "broker_publish", "net_kill", "spurious_ack", "hostile_bytes", "set_silent", "custom", "reauth", "replace", "broker_disconnect",
                               "s_open", "s_read", "s_write", "s_shutdown", "s_cancel", "s_close", "s_trigger"};
     std::ostringstream o;
     if (chained) o << "+chained ";
@@ -249,6 +249,13 @@ struct App : AppSink {
                 ++depth; cl->disconnect(op, a.rc, dp, a.with_slot); --depth;
                 break;
             }
+            case Action::replace:
+                if (!cl->alive()) break;
+                w.log(Ev::terminal, -1, 0, 0, "client = std::move(fresh client)");
+                terminal = true; w.terminal_called = true; ++incarnation; running = false;
+                ++depth; cl->move_assign_fresh(); --depth;
+                expect_drain = true;
+                break;
             case Action::destroy:
                 if (!cl->alive()) break;
                 w.log(Ev::terminal, -1, 2, 0, "destroy");
@@ -285,6 +292,17 @@ struct App : AppSink {
                 if (auto c = b.current()) b.send_raw(c, a.bytes, BKind::hostile, "hostile");
                 break;
             case Action::set_silent: b.cfg.silent_after_connack = a.qos != 0; break;
+            case Action::broker_disconnect:
+                // the Server ends the connection: (optionally a last message and then) DISCONNECT with a reason code a Server may send, then closes
+                if (auto c = b.current()) {
+                    b.hold();
+                    if (!a.payload.empty()) b.publish_to_client("in/" + std::to_string(b.out.size()) + "/", "in/" + std::to_string(b.out.size()) + "/last", a.payload, 0, false, {});
+                    ref::Packet d; d.type = ref::DISCONNECT; d.rc = a.rc; d.props = a.props;
+                    b.send_packet(c, d, BKind::normal);
+                    b.flush(c);
+                    w.broker_close(c, false);
+                }
+                break;
             case Action::reauth:
                 if (!cl->alive()) break;
                 w.log(Ev::note, -1, -1, 0, "script: re_authenticate()");
